@@ -13,7 +13,7 @@ STRENGTH = {t: "proof-unbounded" for t in THEOREMS}
 RULE = ("exhaustive sequences (length <= 4 quick / 5 thorough) of plain and versioned writes (versions -1..3) to keys of a "
         "'newer' database and of the administrative database, with a watcher, remove and snapshot+flush mixed in; seeded random "
         "sequences on two keys with versions below/at/above the current one; family p*: two clients under enumerated lock-level "
-        "interleavings (driver sched); family c*: 2-3 node clusters, writes from two clients of the primary with random FIFO delivery "
+        "interleavings (driver sched), with the clause 'of two versioned writes with the same version argument the one issued last is stored'; family c*: 2-3 node clusters, writes from two clients of the primary with random FIFO delivery "
         "orders, every replica compared with the last write issued; distinct = distinct canonical trace; non-trivial = "
         "at least one stale versioned write was resolved")
 ASSUMPTIONS = ["families x*, r*: sequential execution: op ids grow with issue order, so every stale write is resolved in favour of the incoming change "
@@ -103,6 +103,8 @@ def sched_cases(tier, rng, dist):
     out = []
     nprog, limit = {"quick": (50, 40), "thorough": (500, 400), "search": (30, 30)}[tier]
     progs = [[["set-safe a 0 x1"], ["set-safe a 0 y1"]], [["set a x1", "set-safe a 0 x2"], ["set-safe a 1 y1"]]]
+    # one versioned write each, same key, same version: whichever interleaving, the change issued last (the higher op id) must be the one stored
+    progs += [[["set-safe %s %d x1" % (k, v)], ["set-safe %s %d y1" % (k, v)]] for k in ("a", "b") for v in (0, 1, 5)]
     for _ in range(nprog):
         keys = rng.choice([["a"], ["a", "b"]])
         prog = []
@@ -162,6 +164,55 @@ def gen_cases(tier, seed):
     return cases, dist
 
 
+def issue_order_clause(parop, res, before, after):
+    """two threads, one versioned write each, same key, same version argument (not -1): at least the second one applied is stale,
+    and the strategy resolves it by op id, so the change issued last must be the one stored.  Op ids are drawn at the release that
+    follows the permission lookup (the second release of the command); a release from a park at map.write is a write."""
+    specs = [t for t in parop[1:parop.index("--")] if not t.startswith("h")]
+    sched = [int(x) for x in parop[parop.index("--") + 1:]]
+    if len(specs) != 2:
+        return []
+    cmds = []
+    for sp in specs:
+        sid, hx = sp.split(":", 1)
+        hs = hx.split(",")
+        if len(hs) != 1:
+            return []
+        w = bytes.fromhex(hs[0][1:]).decode().split(" ")
+        if w[0] != "set-safe" or len(w) != 4 or w[2] == "-1":
+            return []
+        cmds.append((int(sid), w[1], w[2], w[3]))
+    if cmds[0][1] != cmds[1][1] or cmds[0][2] != cmds[1][2]:
+        return []
+    key = cmds[0][1]
+    traces = [res.get(c[0], ([], []))[1] for c in cmds]
+    if any(len(t) < 3 for t in traces):
+        return []
+    # position in the schedule of every release of each thread
+    pos = {0: [], 1: []}
+    for i, t in enumerate(sched):
+        if t in pos:
+            pos[t].append(i)
+    if any(len(pos[t]) < len(traces[t]) for t in (0, 1)):
+        return []
+    issued = {t: pos[t][1] for t in (0, 1)}                      # the release that draws the op id
+    writes = {t: [pos[t][j] for j, nm in enumerate(traces[t]) if nm == "map.write"] for t in (0, 1)}
+    late = 0 if issued[0] > issued[1] else 1
+    early = 1 - late
+    a = after.get(key)
+    if a is None or a[0] == cmds[late][3]:
+        return []
+    if a[0] != cmds[early][3]:
+        return []
+    # the change issued first is the one stored
+    if key in before and len(writes[early]) == 2 and writes[late] and writes[early][0] < writes[late][-1]:
+        # it went through the resolution path: the resolution is decided under one hold of the map lock and re-applied under another,
+        # as a NEW change (fresh op id) that is not checked again -- so it either overwrites the later change that landed in between,
+        # or, re-stamped, makes the later change look stale (known finding)
+        return [("newer-resolution-outlives-later-change", "key %s: the change issued first (%s) was re-applied by the resolution path around the later change (%s): stored %r" % (key, cmds[early][3], cmds[late][3], a[0]))]
+    return [("newer-earlier-issued-change-wins", "key %s: %s was issued after %s, but %r is stored" % (key, cmds[late][3], cmds[early][3], a[0]))]
+
+
 def sched_oracle(case, io, mo):
     fails = []
     obs = split_obs(io)
@@ -186,6 +237,7 @@ def sched_oracle(case, io, mo):
                 fails.append(("newer-refused", "a write on a newer database answered %s" % r))
     before = db_keys(obs[pi - 1][3], "d1")
     after = db_keys(obs[pi][3], "d1")
+    fails += issue_order_clause(parop, res, before, after)
     for k, vals in written.items():
         b, a = before.get(k), after.get(k)
         if a is None:
